@@ -546,10 +546,47 @@ def _numbering_failure(clause: str, detail: dict, kinds: list, any_key: bool = F
     return False
 
 
+def _spec_gene_ties(spec: dict) -> bool:
+    """ two genes of the spec with the same sort key of the documented ordering: equal start (for a gene crossing the
+        origin: equal start of its pre-origin part) AND equal summed length.  Judged on the spec, not with the record's
+        own __lt__: a comparator that starts to tie more genes must not widen this input class """
+    keys = set()
+    for gene in spec["genes"]:
+        loc = rec.shifted(gene["loc"], gene.get("codon_start", 1))
+        parts = loc["parts"]
+        if rec.gen.is_span(loc):
+            forward = parts if loc["strand"] != -1 else list(reversed(parts))
+            start = ("span", forward[0][0])
+        else:
+            start = ("plain", min(p[0] for p in parts))
+        key = (start, rec.loc_len(loc))
+        if key in keys:
+            return True
+        keys.add(key)
+    return False
+
+
+def _spec_area_ties(spec: dict, kind: str) -> bool:
+    areas = spec.get("protoclusters" if kind == "protocluster" else "subregions") or []
+    keys = [repr(area["loc"]["parts"]) for area in areas]
+    return len(set(keys)) < len(keys)
+
+
 def sig_equal_sort_key(sub, spec, clause, detail) -> bool:
     """ two areas of one kind (or two genes) compare equal under the record's ordering -> bisect_left puts the later
-        one first, numbering / order flips on every reload """
-    return isinstance(detail, dict) and bool(detail.get("ties")) and _numbering_failure(clause, detail, detail["ties"])
+        one first, numbering / order flips on every reload.  The tie must also be one by the spec: equal coordinates
+        of two protoclusters / subregions, equal (start, summed length) of two genes; candidates are derived, for
+        them the record's own comparison is used """
+    if not isinstance(detail, dict):
+        return False
+    kinds = []
+    for kind in detail.get("ties") or []:
+        if kind == "CDS" and not _spec_gene_ties(spec):
+            continue
+        if kind in ("protocluster", "subregion") and not _spec_area_ties(spec, kind):
+            continue
+        kinds.append(kind)
+    return bool(kinds) and _numbering_failure(clause, detail, kinds)
 
 
 def sig_order_conflict(sub, spec, clause, detail) -> bool:
@@ -715,6 +752,47 @@ def sig_order_operator_lost_by_codon_start(sub, spec, clause, detail) -> bool:
     return want[1] == got[1] and want[0].startswith("order{") and got[0] == "join{" + want[0][len("order{"):]
 
 
+def sig_long_name_inside_value_blank(sub, spec, clause, detail) -> bool:
+    """ values that EMBED a long gene name - NRPS_PKS "Matches aSDomain: nrpspksdomains_<name>_<hit>.<n>", the smCOG
+        tree note "smcogs/<name>.png" - no longer fit a GenBank line; the name is split and read back with a blank,
+        which nothing removes (unlike locus_tag, domain_id, label, Module /domains) """
+    long_genes = [g for g in spec["genes"] if len(g["name"]) > rec.LONG_VALUE]
+    if not clause.startswith("gb_") or not long_genes:
+        return False
+    if clause == "gb_features" and detail.get("type") == "CDS" and detail.get("key") in ("NRPS_PKS", "note"):
+        if detail["key"] == "NRPS_PKS" and not any(d["kind"] == "modular" for g in long_genes for d in g.get("domains") or []):
+            return False
+        if detail["key"] == "note" and not any(g.get("added_notes") for g in long_genes):
+            return False
+        return detail["key"] in (detail.get("only_spaces_differ") or [])
+    if clause == "gb_structure" and detail.get("section") == "cds":
+        return all("/nrps/domains[" in item["at"] and item["at"].endswith("][6]") and isinstance(item["second"], str)
+                   and item["second"].replace(" ", "") == item["first"] for item in detail["diff"])
+    return False
+
+
+def _underscores_gained(before: str, after: str) -> bool:
+    return before != after and len(after) > len(before) and after.replace("_", "") == before.replace("_", "")
+
+
+def sig_long_secondary_id_blank(sub, spec, clause, detail) -> bool:
+    """ /protein_id or /gene longer than a GenBank line: the wrap blank is not removed on reading (only locus_tag is
+        cleaned) and _sanitise_id_value turns it into an underscore: the identifier changes on every round trip """
+    if not clause.startswith("gb_") or not any(len(g.get(key) or "") > rec.LONG_VALUE for g in spec["genes"]
+                                               for key in ("protein_id", "gene")):
+        return False
+    if clause == "gb_features":
+        values = detail.get("values") or [None, None]
+        return (detail.get("type") == "CDS" and detail.get("key") in ("protein_id", "gene")
+                and all(isinstance(v, list) and len(v) == 1 for v in values)
+                and _underscores_gained(values[0][0], values[1][0]))
+    if clause == "gb_structure" and detail.get("section") == "cds":
+        return all(item["at"].endswith(("/ids[1]", "/ids[2]")) and isinstance(item["first"], str)
+                   and isinstance(item["second"], str) and _underscores_gained(item["first"], item["second"])
+                   for item in detail["diff"])
+    return False
+
+
 SIGNATURES = {
     "equal_sort_key": sig_equal_sort_key,
     "order_conflict": sig_order_conflict,
@@ -727,6 +805,8 @@ SIGNATURES = {
     "pfam_empty_go": sig_pfam_empty_go,
     "candidate_wrap_point_linear": sig_candidate_wrap_point_linear,
     "order_operator_lost_by_codon_start": sig_order_operator_lost_by_codon_start,
+    "long_name_inside_value_blank": sig_long_name_inside_value_blank,
+    "long_secondary_id_blank": sig_long_secondary_id_blank,
 }
 
 
